@@ -6,6 +6,7 @@ from specs.prim import *
 
 set_scope('contracts.validation')
 
+ALL_TYPES = ('N', 'N0', 'N1', 'N2', 'N3', 'N4', 'N5', 'N6', 'N7', 'N8', 'N9', 'R', 'ID', 'AN', 'RD8', 'DT', 'D8', 'D6', 'TM', 'B')
 TYPES = ['N', 'N0', 'N1', 'N2', 'N3', 'N4', 'N5', 'N6', 'N7', 'N8', 'N9', 'R', 'ID', 'AN',
          'RD8', 'DT', 'D8', 'D6', 'TM', 'B']
 
@@ -50,7 +51,7 @@ contract('pyx12.validation.IsValidDataType',
          params={'str_val': Str, 'data_type': Str, 'charset': Str, 'icvn': Str},
          cases={'data_type': TYPES, 'charset': ['B', 'E'], 'icvn': ['00401', '00501']},
          returns=Bool,
-         requires=["charset in ('B', 'E')"],
+         requires=["charset in ('B', 'E')", 'data_type in ALL_TYPES', "icvn in ('00401', '00501')"],
          ensures=['result == spec_type(str_val, data_type, charset, icvn)'],
          raises={},
          opaque=['spec_date', 'spec_time', 'spec_string'],
